@@ -28,10 +28,12 @@ func checkC10(c *Ctx, r *Report) {
 	c10DeclareDispatch(c, r, "C10.d")
 	c10CursorDiscipline(c, r, "C10.d")
 	c10RootDispatch(c, r, "C10.d")
+	c10UnionBraceLayout(c, r, "C10.d")
 	c10TokenStartDiscipline(c, r, "C10.d")
 	c10SectionExtents(c, r)
 	c10ActionExtent(c, r)
 	c10c(c, r)
+	c10NothingDropped(c, r, "C10.c")
 	c10d(c, r)
 	// whether a rule ends with `;`, with the next rule's name, with %% or with the end of the file is layout: on every
 	// way out of parseRule the literals first seen in the rule must have been handed to the declaration list (C11.a)
@@ -972,5 +974,132 @@ func collectNameFields(t *Term, nameFields map[string]bool, out *[]*Term) {
 	}
 	for _, v := range t.Fields {
 		collectNameFields(v, nameFields, out)
+	}
+}
+
+// c10NothingDropped — "exactly the rules written in the file": the append-only rule (c10c) keeps the ORDER of the
+// sequences between the grammar file and the grammar; this rule keeps their ELEMENTS. Downstream of the parser (which
+// decides by token kind what an element is) every stage hands each element on: the stores and calls listed here run
+// for every element, i.e. they are guarded by nothing but the type assertion of the visitor (`$ok`) and — for the
+// right-hand symbols — the element kind. A condition on the element itself (a de-duplication, a filter, an early
+// `continue`) makes grammar rule i and the i-th alternative of the file (whose action text, line and precedence are
+// looked up by position) different rules.
+func c10NothingDropped(c *Ctx, r *Report, clause string) {
+	type site struct {
+		dir, recv, fn string
+		field         string // store `<x>.field = append(<x>.field, …)` …
+		call          string // … or a call statement of this function
+		minSites      int
+		allow         []string // atoms (exact, suffix when starting with "…", substring when starting with "*") that may guard it
+		what          string
+	}
+	sites := []site{
+		{"Grammar", "Grammar", "InsertNewRules", "ProductoinRules", "", 1, nil, "every rule handed to the grammar is stored"},
+		{"Grammar", "Grammar", "InsertNewSymbol", "Symbols", "", 1, nil, "every symbol handed to the grammar is stored"},
+		{"Parser", "Walker", "BuildLALR1", "", "InsertNewRules", 2, []string{"($ok)"}, "rule 0 and every alternative of the file are handed to the grammar"},
+		{"Parser", "RuleVistor", "Process", "rules", "", 1, []string{"($ok)"}, "every alternative the parser read becomes a rule"},
+		{"Parser", "RuleVistor", "Process", "RighPart", "", 1, []string{"($ok)", "*.ElemType "}, "every symbol element of an alternative becomes a right-hand symbol"},
+	}
+	for _, s := range sites {
+		f := c.need(r, clause, s.dir, s.recv, s.fn)
+		if f == nil {
+			continue
+		}
+		info := f.Pkg.TypesInfo
+		name := s.field
+		if name == "" {
+			name = s.call + "()"
+		}
+		key := f.Name + "/" + name + "-for-every-element"
+		var targets []ast.Node
+		ast.Inspect(f.Decl.Body, func(n ast.Node) bool {
+			switch x := n.(type) {
+			case *ast.AssignStmt:
+				if s.field == "" || len(x.Lhs) != 1 || len(x.Rhs) != 1 {
+					return true
+				}
+				fv := fieldVar(info, x.Lhs[0])
+				if fv == nil || fv.Name() != s.field {
+					return true
+				}
+				if call, ok := unparen(x.Rhs[0]).(*ast.CallExpr); ok && builtinName(info, call) == "append" && len(call.Args) >= 2 && fieldVar(info, call.Args[0]) == fv {
+					targets = append(targets, x)
+				}
+			case *ast.ExprStmt:
+				if s.call == "" {
+					return true
+				}
+				if call, ok := unparen(x.X).(*ast.CallExpr); ok {
+					if fn := callee(info, call); fn != nil && fn.Name() == s.call {
+						targets = append(targets, x)
+					}
+				}
+			}
+			return true
+		})
+		if len(targets) < s.minSites {
+			r.Undecided(clause, "R2 COVERAGE", key, c.pos(f.Decl.Pos()), fmt.Sprintf("%d site(s) found, %d confirmed by hand", len(targets), s.minSites))
+			continue
+		}
+		// conditions that only exist because an earlier `if c { panic(…) }` rejects the whole grammar are no filters
+		panicGuard := map[string]bool{}
+		pc := pathCtxFor(f)
+		ast.Inspect(f.Decl.Body, func(n ast.Node) bool {
+			is, ok := n.(*ast.IfStmt)
+			if !ok || is.Else != nil || len(is.Body.List) == 0 {
+				return true
+			}
+			if es, ok := is.Body.List[len(is.Body.List)-1].(*ast.ExprStmt); ok {
+				if call, ok := es.X.(*ast.CallExpr); ok && builtinName(info, call) == "panic" {
+					for _, a := range nnfAtoms(pc, is.Cond, true) {
+						panicGuard[a] = true
+					}
+				}
+			}
+			return true
+		})
+		var bad []string
+		for _, t := range targets {
+			for _, a := range guardAtoms(c, f, t) {
+				ok := panicGuard[a]
+				for _, al := range s.allow {
+					if a == al || (strings.HasPrefix(al, "…") && strings.HasSuffix(a, strings.TrimPrefix(al, "…"))) || (strings.HasPrefix(al, "*") && strings.Contains(a, strings.TrimPrefix(al, "*"))) {
+						ok = true
+					}
+				}
+				if !ok {
+					bad = append(bad, fmt.Sprintf("%s runs only under %s", c.pos(t.Pos()), a))
+				}
+			}
+			// inside a loop: the loop body reaches the site on every iteration — no `continue` / `break` before it
+			pm := parentMap(f.Decl.Body)
+			for cur := pm[t]; cur != nil; cur = pm[cur] {
+				var body *ast.BlockStmt
+				switch l := cur.(type) {
+				case *ast.RangeStmt:
+					body = l.Body
+				case *ast.ForStmt:
+					body = l.Body
+				}
+				if body == nil {
+					continue
+				}
+				ast.Inspect(body, func(m ast.Node) bool {
+					switch y := m.(type) {
+					case *ast.FuncLit:
+						return false
+					case *ast.BranchStmt:
+						if y.Pos() < t.Pos() && (y.Tok == token.CONTINUE || y.Tok == token.BREAK || y.Tok == token.GOTO) {
+							bad = append(bad, fmt.Sprintf("a `%s` at %s can skip the site at %s", y.Tok, c.pos(y.Pos()), c.pos(t.Pos())))
+						}
+					}
+					return true
+				})
+			}
+		}
+		sortStrings(bad)
+		r.Check(len(bad) == 0, clause, "R2 COVERAGE", key, c.pos(targets[0].Pos()),
+			fmt.Sprintf("%s: %d site(s), guarded by nothing that depends on the element", s.what, len(targets)),
+			"an element of the grammar file can be dropped on its way into the grammar — rule i of the grammar is then no longer the i-th alternative of the file, whose action and precedence are looked up by position: "+strings.Join(dedupStrings(bad), "; "))
 	}
 }
